@@ -251,8 +251,13 @@ def run(ctx):
     # ---- one response object serving two connections in a row (a response instance is itself an application)
     from baize import asgi, wsgi
     for i, (r, method, hdrs) in enumerate(todo):
-        if r["cls"] in ("Stream", "SSE") or r.get("raise_at") is not None or i % 3:
+        if r.get("raise_at") is not None or i % 3:
             continue
+        streaming = r["cls"] in ("Stream", "SSE")
+        if streaming:
+            if r.get("pause"):
+                continue
+            r = dict(r, reiterable=True)  # a producer that can be iterated once per connection
         for iface, ns in (("wsgi", wsgi), ("asgi", asgi)):
             random.seed(77)
             try:
@@ -260,15 +265,26 @@ def run(ctx):
             except Exception:
                 continue
             req = drivers.Req(method=method, headers=hdrs)
+            # streaming objects: the first client goes away early; the second connection must still get a complete, legal sequence
+            first_fault = (i // 3) % 3 if streaming else 0
             for n in (1, 2):
                 random.seed(77)
-                case = {"recipe": r, "method": method, "headers": hdrs, "iface": iface, "use_of_the_same_object": n}
-                if iface == "wsgi":
-                    res = drivers.run_wsgi(obj, drivers.to_environ(req))
-                    probs = automata.check_wsgi(res.events, edges=edges)
-                else:
-                    res = drivers.run_asgi(obj, drivers.to_scope(req))
-                    probs = automata.check_asgi_http(res.sent, edges=edges)
+                case = {"recipe": r, "method": method, "headers": hdrs, "iface": iface, "use_of_the_same_object": n,
+                        "first_client_left_after": first_fault or None}
+                fault = first_fault if n == 1 else 0
+                pool = drivers.fresh_sse_pool() if (r["cls"] == "SSE" and iface == "wsgi") else None
+                if pool:
+                    pool.__enter__()
+                try:
+                    if iface == "wsgi":
+                        res = (drivers.run_wsgi_guarded if pool else drivers.run_wsgi)(obj, drivers.to_environ(req), fault or None)
+                        probs = automata.check_wsgi(res.events, prefix=bool(fault), edges=edges)
+                    else:
+                        res = drivers.run_asgi(obj, drivers.to_scope(req), disconnect_after_sends=(fault + 1) if fault else None)
+                        probs = automata.check_asgi_http(res.sent, prefix=bool(fault), edges=edges)
+                finally:
+                    if pool:
+                        pool.__exit__()
                 ctx.mon("reused-response-object")
                 if res.exc is not None:
                     ctx.violation(f"{iface}|reuse|exception|{type(res.exc).__name__}|{r['cls']}", case, repr(res.exc))
